@@ -208,6 +208,7 @@ func checkC14(c *Ctx) {
 				return
 			}
 			c.Count("operations", 1)
+			pristine := cloneSpec(&specs.Spec{ContainerEdits: expected}).ContainerEdits
 			// host-resolved attributes are computed by the harness's own lstat-based model
 			// (mFill), so that a library that remembers host information cannot be its own oracle
 			var fillErr error
@@ -253,6 +254,72 @@ func checkC14(c *Ctx) {
 				cs.Violation("stale-host-info", nil, fmt.Sprintf("%s differs from applying the pristine edits against the current host nodes\n got  %s\n want %s", desc, exactJSON(a), exactJSON(want)), wit())
 				return
 			}
+			// the same request once more into the OCI spec it has already been applied to,
+			// after a host node changed its minor only: what is in the OCI spec from last
+			// time is no substitute for looking at the host node again
+			if touchesHost && chance(r, 40) {
+				for i := range real {
+					h := &real[i]
+					if h.Type == "p" {
+						continue
+					}
+					h.Minor = (h.Minor + 1 + int64(r.Intn(50))) % 256
+					if err := mknodAs(h.Path, h.Type, h.Major, h.Minor); err != nil {
+						c.Inconclusive("mknod")
+						return
+					}
+				}
+				again, wantAgain := a, cloneOCI(a)
+				exp2 := cloneSpec(&specs.Spec{ContainerEdits: pristine}).ContainerEdits
+				ok2 := true
+				for _, n := range exp2.DeviceNodes {
+					typ, major, minor, err := mFill(n)
+					if err != nil {
+						ok2 = false
+						break
+					}
+					n.Type, n.Major, n.Minor = typ, major, minor
+				}
+				if ok2 && (&cdi.ContainerEdits{ContainerEdits: &exp2}).Apply(wantAgain) == nil {
+					history = append(history, "every host node gets another minor; "+desc+" again into the same OCI spec")
+					if err := run(again); err != nil || exactJSON(again) != exactJSON(wantAgain) {
+						cs.Violation("stale-host-info", map[string]string{"op": "again-into-the-same-oci-spec"}, fmt.Sprintf("%s applied a second time to the same OCI spec after the host nodes changed their minor differs from applying the pristine edits now (err=%v)\n got  %s\n want %s", desc, err, exactJSON(again), exactJSON(wantAgain)), wit())
+						return
+					}
+					// (and independently of Apply as a reference: every node of the edits is in
+					// the OCI spec with the numbers the host node has NOW, rule included)
+					lastOf := map[string]*specs.DeviceNode{}
+					for _, n := range exp2.DeviceNodes {
+						lastOf[n.Path] = n
+					}
+					for path, n := range lastOf {
+						found, rule := false, n.Type != "b" && n.Type != "c"
+						if again.Linux != nil {
+							for _, d := range again.Linux.Devices {
+								if d.Path == path && d.Type == n.Type && d.Major == n.Major && d.Minor == n.Minor {
+									found = true
+								}
+							}
+							if again.Linux.Resources != nil {
+								for _, rl := range again.Linux.Resources.Devices {
+									if rl.Allow && rl.Type == n.Type && rl.Major != nil && rl.Minor != nil && *rl.Major == n.Major && *rl.Minor == n.Minor {
+										rule = true
+									}
+								}
+							}
+						}
+						if !found || !rule {
+							cs.Violation("stale-host-info", map[string]string{"op": "again-into-the-same-oci-spec"}, fmt.Sprintf("%s applied a second time to the same OCI spec: device node %s should now be %s %d:%d as on the host (node present: %v, allow rule present: %v)\n got %s", desc, path, n.Type, n.Major, n.Minor, found, rule, exactJSON(again.Linux)), wit())
+							return
+						}
+					}
+					c.Count("second_applications_into_the_same_oci_spec", 1)
+					if img := cacheImage(cache); img != image0 {
+						cs.Violation("cache-modified", map[string]string{"op": "again"}, fmt.Sprintf("the cached Specs/devices changed after a second %s:\n%s", desc, firstDiff(image0, img)), wit())
+						return
+					}
+				}
+			}
 		}
 		// (iv) write every cached Spec back
 		for _, w := range writes {
@@ -278,6 +345,7 @@ func checkC14(c *Ctx) {
 	})
 	c.Floor("sequences_2+_host_resolved_ops", 50)
 	c.Floor("host_changes", 50)
+	c.Floor("second_applications_into_the_same_oci_spec", 20)
 	c.Floor("refused_injections_after_a_change_on_disk", 30)
 	c.Floor("writebacks", 100)
 }
